@@ -244,19 +244,22 @@ func (q *c07Req) path() string {
 
 // c07Parent: facts about the calling token, read back from the server (lookup) after it was made.
 type c07Parent struct {
-	Kind             string   `json:"kind"`
-	NS               string   `json:"ns"`
-	ID               string   `json:"-"`
-	TokenPolicies    []string `json:"token_policies"`
-	IdentityPolicies []string `json:"identity_policies,omitempty"`
-	Root             bool     `json:"root"`
-	NonExpiring      bool     `json:"non_expiring"`
-	NumUses          int      `json:"num_uses"`
-	Batch            bool     `json:"batch"`
-	EntityID         string   `json:"entity_id,omitempty"`
-	EntityVia        string   `json:"entity_via,omitempty"`      // login | role-alias: how the harness bound the parent to its entity
-	EntityPolicies   []string `json:"entity_policies,omitempty"` // what the harness wrote on the entity
-	GroupPolicies    []string `json:"group_policies,omitempty"`  // what the harness wrote on the group the entity is a member of
+	Kind             string        `json:"kind"`
+	NS               string        `json:"ns"`
+	ID               string        `json:"-"`
+	TokenPolicies    []string      `json:"token_policies"`
+	IdentityPolicies []string      `json:"identity_policies,omitempty"`
+	Root             bool          `json:"root"`
+	NonExpiring      bool          `json:"non_expiring"`
+	TTL              time.Duration `json:"stored_ttl"`
+	Period           time.Duration `json:"stored_period"`
+	ExplicitMax      time.Duration `json:"stored_explicit_max"`
+	NumUses          int           `json:"num_uses"`
+	Batch            bool          `json:"batch"`
+	EntityID         string        `json:"entity_id,omitempty"`
+	EntityVia        string        `json:"entity_via,omitempty"`      // login | role-alias: how the harness bound the parent to its entity
+	EntityPolicies   []string      `json:"entity_policies,omitempty"` // what the harness wrote on the entity
+	GroupPolicies    []string      `json:"group_policies,omitempty"`  // what the harness wrote on the group the entity is a member of
 	ident            *c07Ident
 }
 
@@ -308,9 +311,10 @@ type c07View struct {
 	AllPolicies   []string      `json:"all_policies,omitempty"` // token + identity
 	Orphan        bool          `json:"orphan"`
 	Period        time.Duration `json:"period"`
-	TTL           time.Duration `json:"ttl"`      // granted TTL (response) / creation_ttl (lookup)
-	Life          time.Duration `json:"lifetime"` // what the mount max bounds: expire_time - issue_time; remaining TTL for periodic tokens
-	Span          time.Duration `json:"span"`     // what an explicit max bounds: expire_time - issue_time (lookup) or TTL (response)
+	ExplicitMax   time.Duration `json:"explicit_max"` // stored explicit_max_ttl (lookup views; response: what the auth block states)
+	TTL           time.Duration `json:"ttl"`          // granted TTL (response) / creation_ttl (lookup)
+	Life          time.Duration `json:"lifetime"`     // what the mount max bounds: expire_time - issue_time; remaining TTL for periodic tokens
+	Span          time.Duration `json:"span"`         // what an explicit max bounds: expire_time - issue_time (lookup) or TTL (response)
 	NonExpiring   bool          `json:"non_expiring"`
 	Type          string        `json:"type"`
 	NumUses       int           `json:"num_uses"`
@@ -435,6 +439,20 @@ func c07Judge(c *c07Case, v *c07View) []c07Finding {
 		}
 	}
 
+	// I6b where default comes from when nobody lifted the parent bound (no sudo, same namespace, no role lists):
+	// "policies ... must be a subset of the policies belonging to the token making the request ... If not specified,
+	// defaults to all the policies of the calling token" (api/auth/token.mdx). default is a policy like any other in
+	// that comparison, so the child has it only if the parent TOKEN has it: whether it was named in the request
+	// (any spelling), inherited, or attached automatically. (Roles with allowed/disallowed lists document their own
+	// automatic default; across namespaces only default can be justified at all: I4.)
+	if c07Has(pols, "default") && !c.Sudo && !c.CrossNS && !q.NoDefault && !(ro != nil && (ro.hasAllowLists() || ro.hasDenyLists())) && !c07Has(p.TokenPolicies, "default") {
+		if c07Has(c07Norm(q.Policies), "default") {
+			add("C07-explicit-default-granted-although-parent-token-lacks-default", "request named default %v, the parent token %v does not hold it, caller has no sudo (endpoint %s), token carries %v", q.Policies, p.TokenPolicies, q.Endpoint, pols)
+		} else {
+			add("C07-default-attached-although-parent-token-lacks-default", "default was not requested %v, the parent token %v does not hold it, caller has no sudo (endpoint %s), token carries %v", q.Policies, p.TokenPolicies, q.Endpoint, pols)
+		}
+	}
+
 	// I7 orphan only via create-orphan, a role with orphan=true, or sudo + no_parent.
 	if v.Orphan && !(q.Endpoint == "create-orphan" || (ro != nil && ro.Orphan) || (c.Sudo && q.NoParent)) {
 		add("C07-orphan-without-entitlement", "token is an orphan (endpoint %s, no_parent=%v, sudo=%v)", q.Endpoint, q.NoParent, c.Sudo)
@@ -502,7 +520,14 @@ func c07Judge(c *c07Case, v *c07View) []c07Finding {
 		roleMax = c07Dur(ro.ExplicitMax)
 	}
 	if v.NonExpiring {
-		if !(c07Has(pols, "root") && p.Root && p.NonExpiring) {
+		switch {
+		case c07Has(pols, "root") && p.Root && p.NonExpiring:
+			// the one documented exception
+		case c07Has(pols, "root") && p.Root:
+			// tokens.mdx: "a root token with an expiration cannot create a root token that never expires"; a periodic
+			// root token, one with an explicit max and one with a plain ttl all have an expiration
+			add("C07-non-expiring-root-token-from-expiring-root-parent", "root token that never expires (stored ttl %s, period %s, explicit max %s) made by a root parent that expires (parent stored ttl %s, period %s, explicit max %s)", v.TTL, v.Period, v.ExplicitMax, p.TTL, p.Period, p.ExplicitMax)
+		default:
 			add("C07-non-expiring-token-without-entitlement", "token never expires; token policies %v, parent root=%v non-expiring=%v", pols, p.Root, p.NonExpiring)
 		}
 	} else {
@@ -615,6 +640,12 @@ func c07Asks(c *c07Case) []string {
 			}
 		}
 	}
+	if !c.Sudo && !c.CrossNS && !(ro != nil && (ro.hasAllowLists() || ro.hasDenyLists())) && c07Has(req, "default") && !c07Has(p.TokenPolicies, "default") {
+		asks = append(asks, "explicit-default-not-held-by-parent")
+	}
+	if p.Root && !p.NonExpiring && c07AsksNonExpiringRoot(q, c.CrossNS) {
+		asks = append(asks, "non-expiring-root-from-expiring-root")
+	}
 	if ro != nil {
 		for _, x := range req {
 			if ro.denies(x) {
@@ -636,6 +667,31 @@ func c07Asks(c *c07Case) []string {
 		asks = append(asks, "entity_alias")
 	}
 	return asks
+}
+
+// c07AsksNonExpiringRoot: a root caller sending this request asks for a root token and states nothing that would
+// give it an expiration (no ttl/lease/period/explicit max in the request or the role).
+func c07AsksNonExpiringRoot(q *c07Req, crossNS bool) bool {
+	ro := q.Role
+	if q.TTL != "" || q.Lease != "" || c07Dur(q.Period) > 0 || c07Dur(q.ExplicitMax) > 0 {
+		return false
+	}
+	if ro != nil && (ro.Period != "" || ro.ExplicitMax != "" || ro.Name == "missing") {
+		return false
+	}
+	req := c07Norm(q.Policies)
+	if c07Has(req, "root") {
+		return true
+	}
+	if len(req) > 0 {
+		return false
+	}
+	// nothing requested: the parent's policies (root) are inherited (not across namespaces: a policy name of the parent's
+	// namespace means nothing in the child namespace), or the role's allowed list is used
+	if crossNS && (ro == nil || !ro.hasAllowLists()) {
+		return false
+	}
+	return ro == nil || !ro.hasAllowLists() || c07Has(c07Norm(ro.Allowed), "root")
 }
 
 // ---------------------------------------------------------------- logins
